@@ -89,7 +89,7 @@ void run_C10(vh::Ctx& c) {
     if (modes[st.mode].order == 2) st.tol = std::max(st.tol, 1e-8);
     apply_settings(*p, st, modes);
     m.mask = fam == MANUFACTURED ? (OTHER | OSCAL | (int)r.pick(4) | (r.coin() ? GSCAL : 0)) : (int)r.pick(32);
-    p->set_mask(m.mask); m.any = m.mask != 0;
+    p->set_mask(m.mask, r.pick(120)); m.any = m.mask != 0;
     init_state(r, m, *p);
     int len = 3 + r.pick(10);
     std::string hist = vh::fmt("family=%s nx=%u d=%u nrhos=%u nscalars=%u t_ini=%g mask=%d stepper=%s ops:", fam == MANUFACTURED ? "manufactured" : "commuting", m.P.nx, m.P.d, m.P.nr, m.P.ns, m.P.ti, m.mask, modes[st.mode].name);
@@ -142,7 +142,7 @@ void run_C10(vh::Ctx& c) {
           Params Pt = P; Pt.ti = t0;
           Problem twin(Pt);
           apply_settings(twin, st, modes);
-          twin.set_mask(m.mask);
+          twin.set_mask(m.mask, r.pick(120));
           Model tm; tm.P = Pt; tm.rho = m.rho; tm.sc = m.sc;
           load_state(tm, twin);
           twin.Evolve(dt);
